@@ -511,7 +511,17 @@ def main():
             trouble.append("extraction/ocaml build failed: %s" % str(e)[-500:])
     else:
         broken.append("model: corr/%s.v no longer builds at %s: %s" % (run_mod, mfail, (merr or "")[:400]))
-    lines = [sexp.dumps(H.encode(c)) for c in cases]
+    if getattr(H, "ENCODE_WITH_OBS", False):
+        # the case given to the model includes part of the observed run (e.g. the order of critical sections)
+        lines = []
+        for c, it in zip(cases, impl):
+            try:
+                o = sexp.loads(it[0]) if it[0][:1] in "(0123456789" else None
+            except Exception:
+                o = None
+            lines.append(sexp.dumps(H.encode(c, o)))
+    else:
+        lines = [sexp.dumps(H.encode(c)) for c in cases]
     if binp:
         t0 = time.time()
         model_out = run_model(binp, lines, 1200)
